@@ -31,7 +31,7 @@ use anda_cognitive_nexus::{CognitiveNexus, ElementId, nexus::DEFAULT_SPACE};
 use anda_kip::{Json, Map};
 use std::collections::BTreeMap;
 
-use crate::fixture::{error_code, error_message, exec, space_seq};
+use crate::fixture::{error_code, error_message, exec_keyed, space_seq};
 
 #[derive(Clone, Copy, Debug, PartialEq, Eq)]
 pub enum Kind {
@@ -104,6 +104,16 @@ impl El {
     pub fn effective_class(&self) -> &'static str {
         if self.class.is_empty() { "internal" } else { self.class }
     }
+    /// The bounded world-validity window of an Assertion (`valid_time.from`,
+    /// `valid_time.until`); both contain every plausible "now", so a belief
+    /// evaluated at now counts the Assertion with or without the window.
+    pub fn window(&self) -> Option<(&'static str, &'static str)> {
+        match self.key {
+            "A1" => Some(("2020-01-01T00:00:00Z", "2090-01-01T00:00:00Z")),
+            "A2" => Some(("2010-01-01T00:00:00Z", "2095-01-01T00:00:00Z")),
+            _ => None,
+        }
+    }
     /// Strings that identify this element's content (for the taint oracle).
     pub fn taint_tokens(&self) -> Vec<String> {
         match self.kind {
@@ -134,7 +144,7 @@ pub struct Built {
 
 /// Creates the listed elements (in population order) as the owner.
 /// `masked[i]` builds element i with its maskable fields (`name`,
-/// `attributes`) left out: "masked fields blanked".
+/// `attributes`; an Assertion's `valid_time`) left out: "masked fields blanked".
 pub async fn build(nexus: &CognitiveNexus, include: &[bool; N], masked: &[bool; N]) -> Built {
     let owner = nexus.system_session();
     let mut built = Built::default();
@@ -160,9 +170,13 @@ pub async fn build(nexus: &CognitiveNexus, include: &[bool; N], masked: &[bool; 
                 let mut params = Map::new();
                 params.insert("p".into(), serde_json::json!(built.id_of[el.subj]));
                 params.insert("a".into(), serde_json::json!({"id": built.id_of[el.obj]}));
+                let window = match (el.window(), masked[i]) {
+                    (Some((from, until)), false) => format!(r#", valid_time: {{from: "{from}", until: "{until}"}}"#),
+                    _ => String::new(),
+                };
                 (
                     format!(
-                        r#"CREATE ASSERTION ?x {{ SET FIELDS {{proposition: :p, asserted_by: :a, stance: "{}", mode: "stated", confidence: 0.{}}} }}"#,
+                        r#"CREATE ASSERTION ?x {{ SET FIELDS {{proposition: :p, asserted_by: :a, stance: "{}", mode: "stated", confidence: 0.{}{window}}} }}"#,
                         el.words, el.rank
                     ),
                     Some(params),
@@ -178,7 +192,9 @@ pub async fn build(nexus: &CognitiveNexus, include: &[bool; N], masked: &[bool; 
                 )
             }
         };
-        let response = exec(&owner, &command, params).await;
+        // every writer names an idempotency key (`pop:<key>`): the journal can be
+        // asked by key as well as by transaction id
+        let response = exec_keyed(&owner, &command, params, &format!("pop:{}", el.key)).await;
         if !error_code(&response).is_empty() {
             panic!(
                 "machinery: population command failed: {command}: {} {}",
